@@ -41,10 +41,16 @@ func init() {
 			"After every endorse the file the pipeline wrote is checked: (a) verify.Endorsement accepts it under the authority's stored root at five times spanning the common validity window of both certificates (first instant, +1s, middle, last-1s, last instant); " +
 			"(b) every listed SNP (count -> measurement) is accepted by the verifier, the validator closure and SevValidate for that count and for count 0, and every TDX (ram, mrtd) row by TdxValidate for that RAM size and for 0; " +
 			"(c) the bytes emitted by InspectPayload / InspectSignature / InspectMask(cert) in raw, hex and base64 form equal the stored fields and pass an independent RSA-PSS + chain check (plus openssl pkeyutl/verify in the thorough tier); " +
-			"(d) every endorsement issued earlier in the history is re-verified after every later command. non-trivial = distinct (assembly, request shape, check kind, position in history) cells",
-		Assumptions: []string{"requests always carry provenance (the verifier demands it after 2024-08-02)", "histories contain no re-bootstrap (C03 speaks about one authority's root)",
+			"(d) every endorsement issued earlier in the history is re-verified after every later command. " +
+			"Every verification is made twice: with freshly built options and through ONE pool / verify.Options / SevValidateOptions / TdxValidateOptions value kept for the whole history (fields rewritten in place), re-verification right after a call on those values that is rejected (outside validity, unlisted measurement, truncated bytes; counted, never judged). " +
+			"Added families judged by the same rules (audit.go): reused-request histories (one endorse.Context value for every run of a history, changed or refilled in place, same candidate under overwrite, failed run repaired in place, two version-control back ends, snapshot + SVSM image, long-lived localkm / gcsca values, rotation time flags backwards / same instant / sub-second / zoned / so late that the leaf outlives the root); " +
+			"parallel batches (6 workers x endorse runs at the same time on one authority, then concurrent verification on one pool); faulted endorse runs (an error at every call position x plain / keep-going / retriable back end / keep-going+overwrite, then the same request again with overwrite: whatever is committed must verify); " +
+			"environment histories through the shipped command line (missing parent directories, symlinked directory and file, longer left-overs at the written paths and at the next certificate's object name, zoned timestamps); the wall-clock history uses its long-lived validators and Options value before AND after the rotation. " +
+			"non-trivial = distinct (assembly, request shape, check kind, position in history) cells",
+		Assumptions: []string{"requests always carry provenance (the verifier demands it after 2024-08-02)", "histories contain no re-bootstrap (C03 speaks about one authority's root)", "rotation time flags stay inside the root certificate's life (outside it no instant is inside the validity of both certificates)",
+			"runs at the same time use one command context each (own authority value / key manager view), the way separate request handlers would; calls expected to be rejected are never judged",
 			"image generator uses the repository's fakeovmf layout writers (workload only; measurement values are judged by C04-C06)"},
-		ShardsQuick: 6, ShardsThor: 12, TimeoutS: 900, TimeoutThor: 3600, Run: run,
+		ShardsQuick: 8, ShardsThor: 16, TimeoutS: 900, TimeoutThor: 3600, Run: run,
 	})
 }
 
@@ -63,6 +69,7 @@ type hist struct {
 	vcs   *doubles.MemVCS
 	vcek  map[int64][]byte
 	cmds  *[]string
+	kv    *kept // verifier-side values kept for the whole history (see kept.go)
 }
 
 func (h *hist) root() (*x509.Certificate, string) {
@@ -137,6 +144,15 @@ func (h *hist) checkFresh(raw []byte, step int, shape string, thorough bool) *is
 		if res := authref.Proto(e, []*x509.Certificate{root}, t); !res.Authentic {
 			h.viol("independent-check-failed", "step %d (%s) at %s: %s", step, shape, tn, res.Why)
 		}
+		h.keptVerify(root, raw, t, nil, 0, "pipeline-endorsement-rejected", fmt.Sprintf("step %d (%s) at %s", step, shape, tn), "fresh@"+tn)
+	}
+	if na.Equal(root.NotAfter) && leaf.NotAfter.After(root.NotAfter) {
+		c.Count("endorsements-whose-window-is-closed-by-the-root-certificate", 1)
+		c.Cell("%s|window-closed-by-root-notafter", h.a.Name())
+	}
+	if nb.Equal(root.NotBefore) && leaf.NotBefore.Before(root.NotBefore) {
+		c.Count("endorsements-whose-window-is-opened-by-the-root-certificate", 1)
+		c.Cell("%s|window-opened-by-root-notbefore", h.a.Name())
 	}
 	// (b) SNP
 	ctx := context.Background()
@@ -148,6 +164,7 @@ func (h *hist) checkFresh(raw []byte, step int, shape string, thorough bool) *is
 				if err != nil {
 					h.viol("listed-snp-measurement-rejected", "step %d: measurement listed for %d VMSAs rejected by verify.Endorsement with ExpectedLaunchVMSAs=%d: %v", step, k, req, err)
 				}
+				h.keptVerify(root, raw, mid, m, req, "listed-snp-measurement-rejected", fmt.Sprintf("step %d: measurement listed for %d VMSAs, ExpectedLaunchVMSAs=%d", step, k, req), "snp-row")
 			}
 			if k <= 4 || k == 240 || thorough {
 				f := verify.SNPValidateFunc(&verify.Options{RootsOfTrust: pool, Now: mid, SNP: &verify.SNPOptions{ExpectedLaunchVMSAs: k}})
@@ -165,6 +182,7 @@ func (h *hist) checkFresh(raw []byte, step int, shape string, thorough bool) *is
 					if err != nil {
 						h.viol("listed-snp-measurement-rejected", "step %d: measurement listed for %d VMSAs rejected by SevValidate with ExpectedLaunchVmsas=%d: %v", step, k, req, err)
 					}
+					h.keptSev(ctx, root, e, gen.SnpAttestation(m, v), mid, k, req, step)
 				}
 			}
 			c.Cell("%s|snp-row|vmsas=%d", h.a.Name(), k)
@@ -186,6 +204,7 @@ func (h *hist) checkFresh(raw []byte, step int, shape string, thorough bool) *is
 				if err != nil {
 					h.viol("listed-tdx-measurement-rejected", "step %d: MRTD listed for ram_gib=%d early_accept=%v rejected by TdxValidate with ExpectedRAMGiB=%d: %v", step, row.RamGib, row.EarlyAccept, ram, err)
 				}
+				h.keptTdx(ctx, root, e, row, mid, ram, step)
 			}
 			c.Cell("%s|tdx-row|ram=%d|early=%v", h.a.Name(), row.RamGib, row.EarlyAccept)
 		}
@@ -286,6 +305,7 @@ func (h *hist) recheck(all []*issued, step int, what string) {
 		} else if step > is.at {
 			h.c.Cell("%s|reverify|%s-after-%d-commands", h.a.Name(), what, min(step-is.at, 6))
 		}
+		h.keptRecheck(root, is, step, what)
 	}
 }
 
@@ -479,18 +499,19 @@ func run(c *core.Ctx) {
 		wallClockHistory(c, wc)
 		c.End(wc)
 	}
+	issuedTotal += runAudit(c, nh+1)
 	c.Count("endorsements-issued-and-checked", issuedTotal)
 	c.Floor("issued-some-endorsements", issuedTotal > 0)
 }
 
 // endorseCLI translates the request into the flags of the endorse command and runs it through cmd.MakeApp.
-func (h *hist) endorseCLI(ec *endorse.Context, step int) error {
+func (h *hist) endorseCLI(ec *endorse.Context, step int, extra ...string) error {
 	a := h.a
 	img := filepath.Join(a.Dir, ec.ImageName)
 	if err := os.WriteFile(img, ec.Image, 0o644); err != nil {
 		return err
 	}
-	args := []string{"endorse", "--uefi", img, "--out_root", a.OutRoot(), "--out_dir", ec.OutDir, "--candidate_name", ec.CandidateName, "--timestamp", ec.Timestamp.UTC().Format(time.RFC3339Nano)}
+	args := []string{"endorse", "--uefi", img, "--out_root", a.OutRoot(), "--out_dir", ec.OutDir, "--candidate_name", ec.CandidateName, "--timestamp", ec.Timestamp.Format(time.RFC3339Nano)}
 	if ec.ClSpec != 0 {
 		args = append(args, "--clspec", fmt.Sprint(ec.ClSpec))
 	}
@@ -526,7 +547,7 @@ func (h *hist) endorseCLI(ec *endorse.Context, step int) error {
 			args = append(args, "--tdx_include_early_accept")
 		}
 	}
-	return a.CLI(args...)
+	return a.CLI(append(args, extra...)...)
 }
 
 // trailingZeroProbe signs a small document through endorse.SignDoc until the signature ends in a zero byte and
@@ -613,13 +634,53 @@ func wallClockHistory(c *core.Ctx, idx int) {
 	pool.AddCert(root)
 	old1 := verify.SNPValidateFunc(&verify.Options{RootsOfTrust: pool})                            // Now unset
 	old2 := verify.SNPFamilyValidateFunc(sev.GCEUefiFamilyID, &verify.Options{RootsOfTrust: pool}) // Now unset
+	keptOpts := &verify.Options{RootsOfTrust: pool}                                                // Now unset, one value for every verify.Endorsement call of this history
+	r := c.Rand(idx)
+	ec := endreq.Random(r, endreq.Opts{MaxImage: 64 << 10}, 1)   // endorsed after the rotation (first draw, as before the audit)
+	ecPre := endreq.Random(r, endreq.Opts{MaxImage: 64 << 10}, 2) // endorsed before the rotation
+	validators := map[string]func(*spb.Attestation, []byte) error{"validator built before the rotation (SNPValidateFunc, Now unset)": old1,
+		"validator built before the rotation (SNPFamilyValidateFunc, Now unset)": old2}
+	// measurement returns one listed SNP measurement of a written endorsement.
+	measurement := func(raw []byte) []byte {
+		e := &epb.VMLaunchEndorsement{}
+		proto.Unmarshal(raw, e)
+		g := &epb.VMGoldenMeasurement{}
+		proto.Unmarshal(e.SerializedUefiGolden, g)
+		var m []byte
+		for _, v := range g.GetSevSnp().GetMeasurements() {
+			m = v
+		}
+		return m
+	}
+	// the long-lived validators and the kept Options value are USED before the rotation (an unset time that is
+	// resolved at the first call instead of at every call would be pinned here), ...
+	ecPre.Timestamp = time.Now()
+	ecPre.VCS, ecPre.OutDir = h.vcs, "out"
+	var rawPre []byte
+	if err := a.Endorse(&doubles.FCtl{}, authority.Opts{}, ecPre); err != nil {
+		h.viol("fault-free-endorse-failed", "wall-clock endorse before the rotation: %v", err)
+	} else if rawPre = h.vcs.Head["out/"+ecPre.CandidateName+".binarypb"]; rawPre != nil {
+		if m := measurement(rawPre); m != nil {
+			for name, f := range validators {
+				err := f(gen.SnpAttestation(m, nil), rawPre)
+				c.Eval(1)
+				if err != nil {
+					h.viol("pipeline-endorsement-rejected", "%s rejects the endorsement issued before the rotation, when called before the rotation: %v", name, err)
+				} else {
+					c.Cell("wall-clock|used-before-the-rotation|%s", name)
+				}
+			}
+		}
+		if err := verify.Endorsement(rawPre, keptOpts); err != nil {
+			h.viol("pipeline-endorsement-rejected", "verify.Endorsement with Now unset rejects the endorsement issued before the rotation: %v", err)
+		}
+		c.Eval(1)
+	}
 	time.Sleep(1200 * time.Millisecond)
 	if _, err := a.Rotate(&doubles.FCtl{}, authority.Opts{}, &rotate.SigningKeyContext{SigningKeyCommonName: "signingKeyCn", Now: time.Now()}); err != nil {
 		h.viol("fault-free-rotation-failed", "wall-clock rotation: %v", err)
 		return
 	}
-	r := c.Rand(idx)
-	ec := endreq.Random(r, endreq.Opts{MaxImage: 64 << 10}, 1)
 	ec.Timestamp = time.Now()
 	ec.VCS, ec.OutDir = h.vcs, "out"
 	if err := a.Endorse(&doubles.FCtl{}, authority.Opts{}, ec); err != nil {
@@ -627,20 +688,13 @@ func wallClockHistory(c *core.Ctx, idx int) {
 		return
 	}
 	raw := h.vcs.Head["out/"+ec.CandidateName+".binarypb"]
-	e := &epb.VMLaunchEndorsement{}
-	proto.Unmarshal(raw, e)
-	g := &epb.VMGoldenMeasurement{}
-	proto.Unmarshal(e.SerializedUefiGolden, g)
-	var m []byte
-	for _, v := range g.GetSevSnp().GetMeasurements() {
-		m = v
-	}
+	m := measurement(raw)
 	if m == nil {
 		return
 	}
-	for name, f := range map[string]func(*spb.Attestation, []byte) error{"validator built before the rotation (SNPValidateFunc, Now unset)": old1,
-		"validator built before the rotation (SNPFamilyValidateFunc, Now unset)": old2,
-		"fresh validator (Now unset)":                                            verify.SNPValidateFunc(&verify.Options{RootsOfTrust: pool})} {
+	validators["fresh validator (Now unset)"] = verify.SNPValidateFunc(&verify.Options{RootsOfTrust: pool})
+	// ... and again after it, on the endorsement of the new key and on the one of the old key
+	for name, f := range validators {
 		err := f(gen.SnpAttestation(m, nil), raw)
 		c.Eval(1)
 		if err != nil {
@@ -648,8 +702,19 @@ func wallClockHistory(c *core.Ctx, idx int) {
 		} else {
 			c.Cell("wall-clock|%s", name)
 		}
+		if mp := measurement(rawPre); mp != nil {
+			if err := f(gen.SnpAttestation(mp, nil), rawPre); err != nil {
+				h.viol("earlier-endorsement-no-longer-verifies", "%s rejects, after the rotation, the endorsement issued before it: %v", name, err)
+			}
+			c.Eval(1)
+		}
 	}
-	if err := verify.Endorsement(raw, &verify.Options{RootsOfTrust: pool}); err != nil {
-		h.viol("pipeline-endorsement-rejected", "verify.Endorsement with Now unset rejects the endorsement issued after the rotation: %v", err)
+	for _, o := range []*verify.Options{keptOpts, {RootsOfTrust: pool}} {
+		if err := verify.Endorsement(raw, o); err != nil {
+			h.viol("pipeline-endorsement-rejected", "verify.Endorsement with Now unset (options value first used before the rotation: %v) rejects the endorsement issued after the rotation: %v", o == keptOpts, err)
+		} else {
+			c.Cell("wall-clock|verify.Endorsement Now unset|options-used-before-the-rotation=%v", o == keptOpts)
+		}
+		c.Eval(1)
 	}
 }
